@@ -141,3 +141,39 @@ Theorem C04_close_skipped_on_error_path_refuted :
    quiescentb N s = true /\ stuck_users N s = 1 /\ closedb s 0 = false).
 Proof. split; [exact split_noclose_stuck|exact range_noclose_stuck]. Qed.
 Print Assumptions C04_close_skipped_on_error_path_refuted.
+
+(* a lazy stage downstream fails with an ordinary error: ReadOne reports io.EOF and closes the iterator
+   (doClose on ANY error) - the cancellation LClose 1, to which C04_quiescent_all_done applies. Without it the
+   consumer has just walked away and the pump stays parked in its send for ever; with it nothing is left *)
+Theorem C04_eof_without_close_refuted :
+  (let N := pump_net in
+   let s := scenario N (pump_init [1; 2; 3; 4; 5]%Z) 500 0 true (Some 2) [LAbandon 0] in
+   quiescentb N s = true /\ leaks N s = 1 /\ s_canc s = []) /\
+  (let N := pump_net in
+   let s := scenario N (pump_init [1; 2; 3; 4; 5]%Z) 500 0 true (Some 2) [LClose 1; LAbandon 0] in
+   quiescentb N s = true /\ leaks N s = 0).
+Proof. split; [exact eof_without_close_leaks|exact eof_with_doclose_releases]. Qed.
+Print Assumptions C04_eof_without_close_refuted.
+
+(* ChanSend.Consume (the pump of MergeIterators / Buffer) over an input that is itself goroutine-backed and was
+   already running under a live application context: its deferred close of the input is on EVERY exit, so the
+   input's own pump goes away when the consumer Closes; closing only after a clean run leaves it parked *)
+Theorem C04_consume_closes_input_on_every_exit :
+  (let N := nested_net true in
+   let s := scenario N (nested_init [1; 2; 3; 4; 5; 6]%Z) 500 0 true (Some 1) [LClose 1] in
+   quiescentb N s = true /\ leaks N s = 0 /\ stuck_users N s = 0 /\ ~ In 5 (s_canc s)) /\
+  (let N := nested_net false in
+   let s := scenario N (nested_init [1; 2; 3; 4; 5; 6]%Z) 500 0 true (Some 1) [LClose 1] in
+   quiescentb N s = true /\ leaks N s = 1).
+Proof. split; [exact consume_closes_input_on_every_exit|exact consume_close_only_on_success_leaks]. Qed.
+Print Assumptions C04_consume_closes_input_on_every_exit.
+
+(* the limit of the library as it is (root cause of finding C04:Split:starter-abandoned): an iterator keeps the
+   context of its FIRST advance; a goroutine parked inside the read of an input that was first advanced under
+   another, live context is not released by Close / cancellation on the consumer's side *)
+Theorem C04_first_advance_context_limit :
+  let N := nested_blocked_net in
+  let s := scenario N nested_blocked_init 500 0 true (Some 1) [LClose 1; LCancel 0] in
+  quiescentb N s = true /\ stuck_users N s = 0 /\ leaks N s = 2 /\ In 1 (s_canc s) /\ In 0 (s_canc s) /\ ~ In 6 (s_canc s).
+Proof. exact reader_parked_in_first_advance_context_not_released. Qed.
+Print Assumptions C04_first_advance_context_limit.
